@@ -12,12 +12,12 @@ import GMGProofs.Props.C03
   exit (`none`), which then propagates through both families alike;
 * `opsGive_smooth_eq` (C06g), `opsGive_exSmooth_eq` (C07g), `opsGive_resid_eq` (C03), `opsGive_solve_eq` (C04g + `Concrete11`):
   the four operators in which `opsGive` differs from `ops` return the same value;
-* `opsAgree`, `exOpsAgree`: the hypotheses of `Cycle.cyc_agree` / `Cycle.excyc_agree`.
+* `opsAgree`, `exOpsAgree`: the hypotheses of `MGCycle.cyc_agree` / `MGCycle.excyc_agree`.
 -/
 set_option linter.unusedSectionVars false
 set_option linter.unusedVariables false
 namespace Concrete
-open Stencil Scalar Cycle SparseLU
+open Stencil Scalar MGCycle SparseLU
 
 section AnyField
 variable {K : Type} [_root_.Field K]
@@ -225,7 +225,7 @@ theorem opsGive_solve_eq (H : Hier K) (G : GiveTables) (hG : G.direct = C04g.gen
       (DirectCode.solve H.tables (lvl H l).op H.tiny b.toList).bind (fun r => r.map fun xs => xs.toArray)
     rw [hG, htab, give_solve_eq_take_solve _ hnr hnt heven hk]
 
-/-! ### the hypotheses of `Cycle.cyc_agree` / `Cycle.excyc_agree` -/
+/-! ### the hypotheses of `MGCycle.cyc_agree` / `MGCycle.excyc_agree` -/
 
 /-- what the residuals of both strategies need on a level -/
 def ResOK (o : Op K) : Prop :=
